@@ -393,16 +393,20 @@ def rule_context_copies(ctx, facts, rule, fields=("trace_id", "span_id", "sample
         fn = ctx.need_fn(facts, p, rule)
         if fn is None:
             continue
-        cons = [c for c in constructions(facts, SPAN_CONTEXT, crates=["fastrace"]) if c[0] is fn]
+        bodies = [fn] + facts.closures_of(fn)
+        cons = [c for c in constructions(facts, SPAN_CONTEXT, crates=["fastrace"]) if any(c[0] is g for g in bodies)]
         if len(cons) != 1:
             ctx.fail(rule, p, fn.span, "exactly one SpanContext construction", "found %d" % len(cons), extra="cons")
             continue
-        _, b, s, f = cons[0]
+        host, b, s, f = cons[0]
         nm = p.rsplit("::", 1)[1]
         want = {"trace_id": ".trace_id", "sampled": ".is_sampled",
                 "span_id": ".id" if nm == "from_span" else ".parent_id"}
         for fld in fields:
-            src = data_origins(prov.of_operand(fn, f[fld]))
+            src = prov.of_operand(host, f[fld])
+            if host is not fn:
+                src = prov.lift_closure_origins(host, src)     # built inside `.map(|item| ..)`: item is what the Option holds
+            src = data_origins(src)
             src = {x for x in src if x.path}     # drop plumbing (promoted consts, fn items)
             suff = want[fld]
             if nm == "from_span" and fld == "span_id":
@@ -413,7 +417,7 @@ def rule_context_copies(ctx, facts, rule, fields=("trace_id", "span_id", "sample
                 ITEM_FIELDS = (".trace_id", ".parent_id", ".collect_id", ".is_root", ".is_sampled", ".id", ".span_id", ".sampled")
                 named = [x for x in src if x.path[-1] in ITEM_FIELDS]
                 good = bool(named) and all(suffix_is(x, suff) for x in named)
-            ctx.check(good, rule, p, fn.loc(b), "%s: SpanContext.%s <- %s" % (nm, fld, "the span's own id" if suff == ".id" else "the first token item's " + suff[1:]),
+            ctx.check(good, rule, p, host.loc(b), "%s: SpanContext.%s <- %s" % (nm, fld, "the span's own id" if suff == ".id" else "the first token item's " + suff[1:]),
                       "origins %s" % origin_strs(src), "origins %s" % origin_strs(src), extra=fld)
 
 
@@ -425,11 +429,15 @@ def rule_first_item(ctx, facts, rule):
         fn = facts.fn(p)
         if fn is None:
             continue
-        cons = [c for c in constructions(facts, SPAN_CONTEXT, crates=["fastrace"]) if c[0] is fn]
+        bodies = [fn] + facts.closures_of(fn)
+        cons = [c for c in constructions(facts, SPAN_CONTEXT, crates=["fastrace"]) if any(c[0] is g for g in bodies)]
         if not cons:
+            ctx.fail(rule, p, fn.span, "the context is built from a token item", "anchor lost: no SpanContext construction in %s" % p, extra="first")
             continue
-        _, b, s, f = cons[0]
-        src = prov.of_operand(fn, f["trace_id"])
+        host, b, s, f = cons[0]
+        src = prov.of_operand(host, f["trace_id"])
+        if host is not fn:
+            src = prov.lift_closure_origins(host, src)
         calls = {v[1] for x in src for v in x.via if v[0] == "call"}
         first = any(re.search(r"Iterator>?::next$|slice::<impl \[T\]>::first$|Vec::<T, A>::first$", c) for c in calls)
         idx0 = False
@@ -444,23 +452,20 @@ def rule_first_item(ctx, facts, rule):
                   "slice::first, index 0)", "via %s" % sorted(c.rsplit('::', 1)[-1] for c in calls)[:8],
                   "item selected through %s" % sorted(calls), extra="first")
         # None results: every partial step leaves through `?`
-        br = fn.calls_re(r"ops::try_trait::Try>?::branch$", cleanup=False)
-        need = 2 if p.endswith("from_span") else 3
-        fr = fn.calls_re(r"FromResidual(<.*>)?>?::from_residual$", cleanup=False)
         from . import panics as _panics
         inv = _panics.Inventory(ctx, facts)
         unsafe_steps = []
-        for x in fn.calls_re(r"Option::<T>::(unwrap|expect)$|Result::<T, E>::(unwrap|expect)$|Index(<.*>)?>?::index$", cleanup=False):
-            how = inv.guard_index(fn, x) if fn.term(x)["callee"].endswith("::index") else inv.guard_unwrap(fn, x)
-            if how is None:
-                unsafe_steps.append(fn.term(x)["callee"])
-        nones = [b for b, blk in enumerate(fn.blocks) if not blk["cleanup"] for st in blk["stmts"]
-                 if st["k"] == "assign" and st["lhs"]["l"] == 0 and st["rv"]["k"] == "agg" and st["rv"].get("variant") == "None"]
-        need = need - len(nones)
-        ctx.check(len(br) >= need and len(fr) >= need and not unsafe_steps, rule, p, fn.span,
-                  "%s yields None (through `?`) when the span is a no-op / no scope is open / the token is empty -- no unwrap, no index"
-                  % p.rsplit("::", 1)[1], "%d `?` steps" % len(br),
-                  "`?` steps: %d (need %d); panicking steps: %s" % (len(br), need, unsafe_steps), extra="none")
+        n_steps = 0
+        for g in bodies:
+            n_steps += len(g.calls_re(r"ops::try_trait::Try>?::branch$|Option::<T>::(and_then|map|as_ref|first|get)$|slice::<impl \[T\]>::first$", cleanup=False))
+            for x in g.calls_re(r"Option::<T>::(unwrap|expect)$|Result::<T, E>::(unwrap|expect)$|Index(<.*>)?>?::index$", cleanup=False):
+                how = inv.guard_index(g, x) if g.term(x)["callee"].endswith("::index") else inv.guard_unwrap(g, x)
+                if how is None:
+                    unsafe_steps.append(g.term(x)["callee"])
+        ctx.check(n_steps >= 1 and not unsafe_steps, rule, p, fn.span,
+                  "%s yields None (through `?` / Option combinators) when the span is a no-op / no scope is open / the token is empty -- no "
+                  "unwrap, no unguarded index" % p.rsplit("::", 1)[1], "%d partial steps" % n_steps,
+                  "partial steps: %d; panicking steps: %s" % (n_steps, unsafe_steps), extra="none")
 
 
 # ------------------------------------------------------------------------------------------------ C06
